@@ -115,6 +115,11 @@ class Path:
                 e = ast.parse(t, mode="eval").body
             except SyntaxError:
                 continue
+            if isinstance(e, ast.Constant) and (e.value is None or isinstance(e.value, (bool, int, float, str))):
+                # a flag that is a known constant on this path (`ok = False` ... `if ok:`)
+                if bool(e.value) != p:
+                    return False
+                continue
             if isinstance(e, ast.Compare) and len(e.ops) == 1 and isinstance(e.left, ast.Constant) and isinstance(e.comparators[0], ast.Constant):
                 a, b = e.left.value, e.comparators[0].value
                 op = e.ops[0]
